@@ -92,6 +92,14 @@ def build(d, params=('P0',), ref_names=None, taxa=None, qlabels=None, pathlike_s
 		alt = os.path.join(d, 'qalt', (QFILES[lab][:-3] if QFILES[lab].endswith('.gz') else QFILES[lab] + '.gz'))
 		fixtures.write_fasta(alt, contigs_of(segs), gz=alt.endswith('.gz'))
 		fx.qgz[lab] = alt
+	# the same files reached through symbolic links with OTHER names (workflow managers stage inputs this way): the label is the name given
+	fx.qlink = {}
+	os.makedirs(os.path.join(d, 'qlinks'), exist_ok=True)
+	for lab in QUERIES:
+		ext = '.fna.gz' if fx.q[lab].endswith('.gz') else '.fasta'
+		lp = os.path.join(d, 'qlinks', f'staged_{lab}_input{ext}')
+		os.symlink(fx.q[lab], lp)
+		fx.qlink[lab] = lp
 	fx.qx = {}
 	for lab, segs in EXTRA_QUERIES.items():
 		p = os.path.join(d, 'q', EXTRA_QFILES[lab])
